@@ -1713,20 +1713,220 @@ func runnerState(repo string) (string, error) {
 		return "", err
 	}
 	cf := wkFindFunc(ff, "", "makeVarContainsFilter")
-	presetFirst := false
-	if cf != nil {
-		ast.Inspect(cf, func(n ast.Node) bool {
-			fl, ok := n.(*ast.FuncLit)
-			if !ok || len(fl.Body.List) == 0 || len(fl.Type.Params.List) != 1 {
-				return true
+	if cf == nil {
+		return "", fmt.Errorf("makeVarContainsFilter not found")
+	}
+	pol, err := wkContainsPresetPolicy(fset, cf)
+	if err != nil {
+		return "", err
+	}
+	fmt.Fprintf(&sb, "(* Contains(): when the closure stores the current match's captures into gogrepSubState.CapturePreset, relative to its uses of the sub-state *)\nDefinition gen_contains_preset_policy : string := %q%%string.\n", pol)
+	fmt.Fprintf(&sb, "Definition gen_contains_sets_preset_before_use : bool := %v.\n", pol == "always")
+	// the variadic-length register of the operand stack (lives in RunnerState.evalEnv.Stack)
+	vs, err := wkVariadicRegister(fset, repo)
+	if err != nil {
+		return "", err
+	}
+	sb.WriteString(vs)
+	return sb.String(), nil
+}
+
+// wkMentions reports whether the source of n contains the selector `.name`.
+func wkMentions(n ast.Node, name string) bool {
+	found := false
+	ast.Inspect(n, func(x ast.Node) bool {
+		if se, ok := x.(*ast.SelectorExpr); ok && se.Sel.Name == name {
+			found = true
+		}
+		if id, ok := x.(*ast.Ident); ok && id.Name == name {
+			found = true
+		}
+		return !found
+	})
+	return found
+}
+
+// wkContainsPresetPolicy classifies the filter closure of makeVarContainsFilter:
+//   "always"    the statement `P.gogrepSubState.CapturePreset = P.match.CaptureList()` is a top-level statement of the
+//               closure, preceded only by statements that do not touch the sub-matcher state (definitions, early
+//               returns) -- so every use of the sub-state sees the captures of the current match;
+//   "sometimes" CapturePreset is assigned, but under a condition / after a use / from another value;
+//   "never"     it is not assigned at all.
+func wkContainsPresetPolicy(fset *token.FileSet, cf *ast.FuncDecl) (string, error) {
+	var fl *ast.FuncLit
+	for _, s := range cf.Body.List {
+		if rs, ok := s.(*ast.ReturnStmt); ok && len(rs.Results) == 1 {
+			fl, _ = rs.Results[0].(*ast.FuncLit)
+		}
+	}
+	if fl == nil || len(fl.Type.Params.List) != 1 || len(fl.Type.Params.List[0].Names) != 1 {
+		return "", fmt.Errorf("makeVarContainsFilter: does not return a one-parameter closure")
+	}
+	p := fl.Type.Params.List[0].Names[0].Name
+	want := p + ".gogrepSubState.CapturePreset = " + p + ".match.CaptureList()"
+	assigned := false
+	ast.Inspect(fl.Body, func(n ast.Node) bool {
+		if as, ok := n.(*ast.AssignStmt); ok {
+			for _, l := range as.Lhs {
+				if se, ok := l.(*ast.SelectorExpr); ok && se.Sel.Name == "CapturePreset" {
+					assigned = true
+				}
 			}
-			p := fl.Type.Params.List[0].Names[0].Name
-			if wkSrc(fset, fl.Body.List[0]) == p+".gogrepSubState.CapturePreset = "+p+".match.CaptureList()" {
-				presetFirst = true
+		}
+		return true
+	})
+	if !assigned {
+		if !wkMentions(fl.Body, "gogrepSubState") {
+			return "", fmt.Errorf("makeVarContainsFilter: the closure does not use the sub-matcher state at all")
+		}
+		return "never", nil
+	}
+	for _, s := range fl.Body.List {
+		if wkSrc(fset, s) == want {
+			return "always", nil
+		}
+		if wkMentions(s, "gogrepSubState") || wkMentions(s, "CapturePreset") {
+			return "sometimes", nil // used, or conditionally / differently assigned, before the unconditional store
+		}
+		switch s := s.(type) {
+		case *ast.AssignStmt:
+			if s.Tok != token.DEFINE {
+				return "", fmt.Errorf("makeVarContainsFilter: statement before the preset store not understood: %s", wkSrc(fset, s))
 			}
-			return false
+		case *ast.IfStmt:
+			// an early exit: if <cond> { return ... }
+			if len(s.Body.List) == 0 {
+				return "", fmt.Errorf("makeVarContainsFilter: empty if before the preset store")
+			}
+			_, ok := s.Body.List[len(s.Body.List)-1].(*ast.ReturnStmt)
+			if s.Else != nil || !ok {
+				return "", fmt.Errorf("makeVarContainsFilter: statement before the preset store not understood: %s", wkSrc(fset, s))
+			}
+		default:
+			return "", fmt.Errorf("makeVarContainsFilter: statement before the preset store not understood: %s", wkSrc(fset, s))
+		}
+	}
+	return "sometimes", nil
+}
+
+// wkVariadicRegister reads how quasigo treats ValueStack.variadicLen: the struct inventory, its single writer (the
+// opSetVariadicLen instruction), its single reader (PopVariadic) and whether compileNativeCall emits the store
+// in front of every variadic native call.
+func wkVariadicRegister(fset *token.FileSet, repo string) (string, error) {
+	var sb strings.Builder
+	dir := filepath.Join(repo, "ruleguard/quasigo")
+	ents, err := os.ReadDir(dir)
+	if err != nil {
+		return "", err
+	}
+	var writers, readers []string
+	var qf, cf *ast.File
+	for _, e := range ents {
+		name := e.Name()
+		if !strings.HasSuffix(name, ".go") || strings.HasSuffix(name, "_test.go") || strings.HasPrefix(name, "verif_hooks") {
+			continue
+		}
+		f, err := parser.ParseFile(fset, filepath.Join(dir, name), nil, 0)
+		if err != nil {
+			return "", err
+		}
+		switch name {
+		case "quasigo.go":
+			qf = f
+		case "compile.go":
+			cf = f
+		}
+		lhs := map[ast.Expr]bool{}
+		ast.Inspect(f, func(n ast.Node) bool {
+			switch n := n.(type) {
+			case *ast.AssignStmt:
+				for _, l := range n.Lhs {
+					if se, ok := l.(*ast.SelectorExpr); ok && se.Sel.Name == "variadicLen" {
+						lhs[l] = true
+						writers = append(writers, name+":"+wkEnclosing(f, n.Pos())+":"+wkSrc(fset, n))
+					}
+				}
+			case *ast.IncDecStmt:
+				if se, ok := n.X.(*ast.SelectorExpr); ok && se.Sel.Name == "variadicLen" {
+					lhs[n.X] = true
+					writers = append(writers, name+":"+wkEnclosing(f, n.Pos())+":"+wkSrc(fset, n))
+				}
+			case *ast.UnaryExpr:
+				if se, ok := n.X.(*ast.SelectorExpr); ok && n.Op == token.AND && se.Sel.Name == "variadicLen" {
+					writers = append(writers, name+":"+wkEnclosing(f, n.Pos())+":address taken")
+				}
+			}
+			return true
+		})
+		ast.Inspect(f, func(n ast.Node) bool {
+			if se, ok := n.(*ast.SelectorExpr); ok && se.Sel.Name == "variadicLen" && !lhs[se] {
+				readers = append(readers, name+":"+wkEnclosing(f, se.Pos()))
+			}
+			return true
 		})
 	}
-	fmt.Fprintf(&sb, "Definition gen_contains_sets_preset_before_use : bool := %v.\n", presetFirst)
+	if qf == nil || cf == nil {
+		return "", fmt.Errorf("quasigo.go / compile.go not found")
+	}
+	fields, ok := wkStructFields(qf, "ValueStack")
+	if !ok {
+		return "", fmt.Errorf("struct ValueStack not found")
+	}
+	fmt.Fprintf(&sb, "Definition gen_fields_ValueStack : list string := %s.\n", wkCoqStrList(fields))
+	efields, ok := wkStructFields(qf, "EvalEnv")
+	if !ok {
+		return "", fmt.Errorf("struct EvalEnv not found")
+	}
+	fmt.Fprintf(&sb, "Definition gen_fields_EvalEnv : list string := %s.\n", wkCoqStrList(efields))
+	fmt.Fprintf(&sb, "Definition gen_variadic_len_writers : list string := %s.\nDefinition gen_variadic_len_readers : list string := %s.\n",
+		wkCoqStrList(writers), wkCoqStrList(readers))
+	// compileNativeCall: `if variadic != 0 { ...; cl.emit8(opSetVariadicLen, len(variadicArgs)) }` directly followed by
+	// `cl.emit16(opCallNative, ...)`: the store is emitted, unconditionally, as the instruction in front of every variadic native call
+	cn := wkFindFunc(cf, "compiler", "compileNativeCall")
+	if cn == nil {
+		return "", fmt.Errorf("compiler.compileNativeCall not found")
+	}
+	recv := cn.Recv.List[0].Names[0].Name
+	if len(cn.Type.Params.List) < 2 || len(cn.Type.Params.List[1].Names) != 1 {
+		return "", fmt.Errorf("compileNativeCall: parameters")
+	}
+	vp := cn.Type.Params.List[1].Names[0].Name
+	nstores := 0
+	ast.Inspect(cn, func(n ast.Node) bool {
+		if c, ok := n.(*ast.CallExpr); ok && len(c.Args) >= 1 && wkSrc(fset, c.Args[0]) == "opSetVariadicLen" {
+			nstores++
+		}
+		return true
+	})
+	pol := "never"
+	if nstores > 0 {
+		pol = "sometimes"
+	}
+	body := cn.Body.List
+	for i, s := range body {
+		ifs, ok := s.(*ast.IfStmt)
+		if !ok || ifs.Init != nil || ifs.Else != nil || wkSrc(fset, ifs.Cond) != vp+" != 0" || len(ifs.Body.List) == 0 || i+1 >= len(body) {
+			continue
+		}
+		lastS := wkSrc(fset, ifs.Body.List[len(ifs.Body.List)-1])
+		next := wkSrc(fset, body[i+1])
+		if nstores == 1 && lastS == recv+".emit8(opSetVariadicLen, len(variadicArgs))" && strings.HasPrefix(next, recv+".emit16(opCallNative, ") {
+			// variadicArgs must be the arguments from position `variadic` on
+			okArgs := false
+			for _, t := range body[:i] {
+				if inner, ok := t.(*ast.IfStmt); ok && wkSrc(fset, inner.Cond) == vp+" != 0" {
+					for _, u := range inner.Body.List {
+						if wkSrc(fset, u) == "variadicArgs = args["+vp+":]" {
+							okArgs = true
+						}
+					}
+				}
+			}
+			if okArgs {
+				pol = "always"
+			}
+		}
+	}
+	fmt.Fprintf(&sb, "(* compileNativeCall: is `SetVariadicLen <number of variadic arguments>` the instruction in front of every variadic native call? *)\nDefinition gen_variadic_len_store_policy : string := %q%%string.\n", pol)
 	return sb.String(), nil
 }
